@@ -195,6 +195,7 @@ def build(seed, tier, sites, cfg, n_value, g, sweep=False):
     plan['status_fail'] = kernel.stream(seed, 'status').random() < 0.15
     # how the text is spread over files is no business of the timeout: a section may start by including a file
     plan['failing_assertion'] = kernel.stream(seed, 'failing-assertion').random() < 0.2
+    plan['env_of_act'] = kernel.stream(seed, 'env-of-act').random() < 0.3
     fg = kernel.stream(seed, 'first-include')
     if fg.random() < 0.3:
         plan['first_include'] = [ph for ph in PHASES if fg.random() < 0.5]
@@ -279,6 +280,10 @@ def render(plan):
             # the section starts by including a file (a definition nobody uses); everything else follows the directive
             lines.append('including ' + casegen.first_include_file(ph)[0])
         if ph == 'setup':
+            if plan.get('env_of_act'):
+                # the action and the other processes see different environments: none of the timeout's business
+                lines.append('env -of act ONLY_FOR_THE_ACTION = a')
+                lines.append('env -of !act ONLY_FOR_THE_OTHERS = o')
             lines.append('file g.txt = "g"')
             lines.append('dir gd')
             lines.append('file gd/x.txt = "x"')
